@@ -125,6 +125,37 @@ def scenarios():
             failures.append({"case": "schema", "what": "relative operation_info names of a sub-package service are not resolved against the method's package", "got": got, "want": want})
     except Exception as e:      # noqa
         failures.append({"case": "schema", "what": "an API with an LRO service in a sub-package cannot be built", "error": repr(e)[:300]})
+    # ... and the result / metadata classes of such a service carry the full names a server packs into Operation.response / .metadata (an Any is
+    # matched by full name): the sub-package file's types module, loaded by path
+    n += 1
+    try:
+        import importlib.util, os as _os, sys as _sys
+        cat = G.new_file("acme/depot/v1/catalog/catalog.proto", "acme.depot.v1.catalog")
+        for nm in ("ImportResult", "ImportMeta", "ImportReq"):
+            G.add_message(cat, nm, [G.F("name", 1, G.T.TYPE_STRING)])
+        G.add_method(G.add_service(cat, "Catalog"), "Import", ".acme.depot.v1.catalog.ImportReq", ".google.longrunning.Operation",
+                     http=("post", "/v1/{name=c/*}:import"), body="*", lro=("ImportResult", "ImportMeta"))
+        other = G.new_file("acme/depot/v1/shared/shared.proto", "acme.depot.v1.shared")
+        G.add_message(other, "Shared", [G.F("x", 1, G.T.TYPE_STRING)])
+        _, cres = G.generate([cat, other], "autogen-snippets=false")
+        with G.materialised(cres) as croot:
+            path_ = _os.path.join(croot, "acme/depot_v1/catalog/types/catalog.py")
+            spec_ = importlib.util.spec_from_file_location("verif_c08_catalog", path_)
+            mod_ = importlib.util.module_from_spec(spec_)
+            _sys.modules[spec_.name] = mod_
+            spec_.loader.exec_module(mod_)
+            a_ = any_pb2.Any()
+            from google.protobuf import descriptor_pool, message_factory
+            pool_ = descriptor_pool.DescriptorPool()
+            for fp in G.dep_files() + [cat]:
+                pool_.Add(fp)
+            a_.Pack(message_factory.GetMessageClass(pool_.FindMessageTypeByName("acme.depot.v1.catalog.ImportResult"))(name="done"))
+            tgt = mod_.ImportResult.pb(mod_.ImportResult())
+            if not a_.Unpack(tgt) or tgt.name != "done":
+                failures.append({"case": "schema", "what": "the result type of an LRO declared in a sub-package does not accept the Any a server sends",
+                                 "type_url": a_.type_url, "generated_full_name": tgt.DESCRIPTOR.full_name})
+    except Exception as e:      # noqa
+        failures.append({"case": "schema", "what": "sub-package LRO result type scenario failed", "error": repr(e)[:300]})
     # the API's own operation.proto (holding the result / metadata messages) next to api-core's `operation` module: the future is still built through
     # the wrapper module, i.e. no emitted service module binds one name to two imports or uses an unbound qualifier
     opf = G.new_file("acme/zoo/v1/operation.proto", "acme.zoo.v1")
